@@ -35,6 +35,10 @@ def run(ctx):
     s52(ctx, prog, T)
     s53(ctx, prog)
     s56(ctx, prog)
+    # S5.9 "with earlier elements' effects applied" holds through every mutable entry point: the typed `_mut` and context-free forms
+    # reach the mutable root evaluator exactly once (the base-call part of the C12 entry-point analysis)
+    from rules.c08 import r87
+    r87(ctx, prog, rule='S5.9', only_mut=True)
     prec = T['precedence']
     ctx.check(prec['Tuple'] > prec['Chain'], 'S5.4', 'Tuple>Chain', 'prec', 'tuple operator binds tighter than the chain operator (%d > %d)' % (prec['Tuple'], prec['Chain']))
     for o in ('Tuple', 'Chain'):
